@@ -278,7 +278,7 @@ check("C12",
       "Coq induction on constraint trees over translated sendToken split / taster tables / comparators + real callRemote differentials", "DESIGN.md 5/C12")
 
 check("C16",
-      "Theorems (Coq, 7, over all permitted event sequences Start/AttemptOk/AttemptFail z/Lost/TimerExpired/Reset/Stop; exact rational arithmetic): "
+      "Theorems (Coq, 8, over all permitted event sequences Start/AttemptOk u/AttemptFail z/Lost/TimerExpired/Elapse/Reset/Stop; exact rational arithmetic): "
       "_active iff started and not stopped; no timer is leaked and, while active, attempts in flight + watched connections + pending timers = 1 (and "
       "ReconnectionInfo.state names it); every delay and timer lies in [0, maxDelay*(1+jitter*Zmax)] for draws |z| <= Zmax <= 1/jitter (the bound on "
       "the draw is necessary: C16_negative_delay_possible); after a success the next retry delay is initialDelay; while active something is always "
@@ -287,7 +287,14 @@ check("C16",
       "methods of Reconnector are translated statement by statement into the model's actions on every run (constants as exact rationals from the "
       "literal text; pb.py call sites as shape facts; fail-closed white list for logging/info statements); ALL permitted sequences up to length 8 "
       "(11 560; 262 690 up to length 11 in the thorough tier) plus 150 seeded long sequences are run on the real class with a fake Tub, virtual "
-      "clock and scripted normalvariate and compared inside Coq (flags, ordered outputs, delays). Direct oracle on every node plus seven real-Tub "
+      "clock and scripted normalvariate and compared inside Coq (flags, ordered outputs, delays). Re-entrancy and the reactor turn structure: "
+      "AttemptOk u carries the stopConnecting/reset calls the user callback makes from inside (C16_reentrant_callback: they act as if issued right "
+      "after _connected returned; the translated _connected takes the callback's actions as a parameter); a second family of micro-operations "
+      "(attempts fire without draining, 'lose' queues the disconnect watchers like Broker, 'turn' = one turn of foolscap's eventual queue, "
+      "stop/reset at top level / inside the callback / inside the user's disconnect handler / queued in the same batch) is enumerated "
+      "exhaustively (15 043 sequences up to length 6; 68 472 up to 7 thorough) plus seeded long ones; the model history is the order in which "
+      "the Reconnector's entry points were REALLY invoked (wrapped on the instance) and 'after stopConnecting returned' is judged on that order, "
+      "after every operation and after a final drain. Direct oracle on every node plus seven real-Tub "
       "scenarios on the in-memory network (stop before start, cut, reconnect, stop in flight, unreachable back-off, Tub.stopService).",
       "Modelled, not verified: Twisted Deferred / DelayedCall semantics and the Tub (hand-written dispatcher), normalvariate as mu + z*sigma, "
       "doubles as exact Q. A draw below -1/jitter (probability ~3e-17) gives a negative delay: stated, not hidden.",
